@@ -711,4 +711,40 @@ theorem pickSidecar_root_default (m : Mesh) (scs : List Sidecar) (ns : String) (
     simp only [Bool.and_eq_true, beq_iff_eq, Option.isNone_iff_eq_none] at hp
     exact ⟨c, hc, hp.1, hp.2⟩
 
+
+/-! ### the alias statement without the model's index
+
+`AliasVisible` is phrased through `lookupHN` (the model of `ServiceIndex.HostnameAndNamespace`).  The
+statement a reader wants is about the mesh itself: *some service with the alias's (namespace, hostname)
+key is `Visible` (documented exportTo semantics) to the proxy's namespace*.  One direction holds for
+every mesh, the other when (namespace, hostname) keys are unique - which Kubernetes names are; with two
+services on one key the index keeps one of them and an alias is judged by that one. -/
+
+/-- **spec** (model-independent): a mesh service with the alias's key is exported to `ns` -/
+def AliasBacked (m : Mesh) (svcs : List Svc) (ns : String) (a : String × String) : Prop :=
+  ∃ t ∈ svcs, t.hostname = a.2 ∧ t.ns = a.1 ∧ Visible m t ns
+
+theorem aliasVisible_backed (m : Mesh) (svcs : List Svc) (ns : String) (hns : ValidNs ns) (a : String × String)
+    (h : AliasVisible m svcs ns a) : AliasBacked m svcs ns a := by
+  obtain ⟨t, hl, hv⟩ := h
+  obtain ⟨h1, h2, h3⟩ := lookupHN_mem svcs _ _ t hl
+  exact ⟨t, h1, h2, h3, (visible_iff m t ns hns).mp hv⟩
+
+theorem aliasBacked_visible_of_unique_keys (m : Mesh) (svcs : List Svc) (ns : String) (hns : ValidNs ns)
+    (a : String × String)
+    (huniq : ∀ x ∈ svcs, ∀ y ∈ svcs, x.hostname = y.hostname → x.ns = y.ns → x = y)
+    (h : AliasBacked m svcs ns a) : AliasVisible m svcs ns a := by
+  obtain ⟨t, ht, hh, hn, hv⟩ := h
+  refine ⟨t, ?_, (visible_iff m t ns hns).mpr hv⟩
+  have := lookupHN_of_unique svcs t ht (fun x hx e1 e2 => huniq x hx t ht e1 e2)
+  rw [hh, hn] at this
+  exact this
+
+/-- **scope_alias_backed**: every alias hostname a sidecar scope delivers is backed by a mesh service with
+    that (namespace, hostname) key that is `Visible` to the proxy's namespace. -/
+theorem scope_alias_backed (f : Flags) (hfix : f.aliasGuard = true) (m : Mesh) (svcs : List Svc) (vss : List VS)
+    (sc : Option Sidecar) (cfgNs : String) (hns : ValidNs cfgNs) :
+    ∀ s ∈ scopeServices f m svcs vss sc cfgNs, ∀ a ∈ s.aliases, AliasBacked m svcs cfgNs a :=
+  fun s hs a ha => aliasVisible_backed m svcs cfgNs hns a (scope_alias_sound f hfix m svcs vss sc cfgNs s hs a ha)
+
 end IstioModel.C07
